@@ -664,6 +664,11 @@ class MessageManager(ClientLike):
         Args:
             src_module (Module): Module to send ACK to
         """
+        # The module may have been removed while its request was being processed
+        # (a failed delivery of a log message to that same module): nothing to acknowledge
+        if src_module.conn not in self.modules:
+            return
+
         header = self.header_cls()
         header.msg_type = cd.MT_ACKNOWLEDGE
         header.send_time = time.perf_counter()
